@@ -99,6 +99,39 @@ func generate(job *simkit.Job, rng *simkit.RNG) (Config, []Action) {
 		}
 	}
 	g.tab, _ = newTable(cfg)
+	initial := g.tab
+
+	// ---- edits of the table between the calls (the tree is generated against
+	// every pattern the table ever holds, so that what the quantifier leaves
+	// out - links under eligible names - stays out after an edit as well)
+	var edits []FilterOp
+	if cfg.Base != "zero" && rng.Chance(1, 3) {
+		cur, _ := newTable(cfg)
+		union, _ := newTable(cfg)
+		for n := 1 + rng.Intn(3); n > 0; n-- {
+			var op FilterOp
+			switch x := rng.Intn(100); {
+			case x < 45 && len(cur.pats) > 0:
+				op = FilterOp{P: cur.pats[rng.Intn(len(cur.pats))], K: fkDel}
+			case x < 70 && len(cur.pats) > 0:
+				op = FilterOp{P: cur.pats[rng.Intn(len(cur.pats))], K: kindOf()}
+			case x < 75:
+				op = FilterOp{P: pick(g, extraPatterns), K: fkDel}
+			case x < 85:
+				op = FilterOp{P: []string{"*.pl", "*.sh", "*.subr"}[rng.Intn(3)], K: kindOf()}
+			default:
+				op = FilterOp{P: pick(g, extraPatterns), K: kindOf()}
+			}
+			_ = cur.apply(op)
+			cur.resort()
+			if op.K != fkDel {
+				_ = union.apply(op)
+			}
+			edits = append(edits, op)
+		}
+		union.resort()
+		g.tab = union
+	}
 
 	// ---- the tree
 	top := "d"
@@ -121,6 +154,26 @@ func generate(job *simkit.Job, rng *simkit.RNG) (Config, []Action) {
 	}
 	nTop := []int{0, 1, 2, 3, 4, 5, 6, 8, 10, 12, 16}[rng.Intn(11)]
 	g.fill(top, nTop, 0)
+	// a descriptor budget, and more eligible files than it allows to be open
+	// at the same time
+	if !cfg.Real && rng.Chance(1, 6) {
+		cfg.FDLimit = []int{8, 12, 16}[rng.Intn(3)]
+		var extsHere []string
+		for _, p := range initial.pats {
+			if strings.HasPrefix(p, "*.") && !strings.ContainsAny(p[2:], "*?[\\") {
+				extsHere = append(extsHere, p[1:])
+			}
+		}
+		if len(extsHere) == 0 {
+			extsHere = []string{".sh"}
+		}
+		for k, n := 0, cfg.FDLimit+1+rng.Intn(2*cfg.FDLimit); k < n; k++ {
+			p := fmt.Sprintf("%s/m%03d%s", top, k, pick(g, extsHere))
+			if !g.used[p] {
+				g.file(p)
+			}
+		}
+	}
 
 	// ---- faults
 	if !cfg.Real && rng.Chance(1, 2) {
@@ -156,8 +209,8 @@ func generate(job *simkit.Job, rng *simkit.RNG) (Config, []Action) {
 		}
 	}
 
-	// ---- calls
-	for n := 1 + rng.Intn(3); n > 0; n-- {
+	// ---- calls, edits of the table between them, overlapping calls
+	sources := func() []string {
 		var srcs []string
 		switch x := rng.Intn(100); {
 		case x < 55:
@@ -173,7 +226,42 @@ func generate(job *simkit.Job, rng *simkit.RNG) (Config, []Action) {
 		default:
 			srcs = []string{g.anySource(top, 0)}
 		}
-		g.acts = append(g.acts, Action{Op: "call", Sources: srcs})
+		return srcs
+	}
+	nCalls := 1 + rng.Intn(3)
+	if len(edits) > 0 && nCalls < 2 {
+		nCalls = 2 + rng.Intn(2)
+	}
+	for k := 0; k < nCalls; k++ {
+		if k > 0 && len(edits) > 0 {
+			m := 1 + rng.Intn(len(edits))
+			if k == nCalls-1 {
+				m = len(edits)
+			}
+			for _, op := range edits[:m] {
+				op := op
+				g.acts = append(g.acts, Action{Op: "filter", Filter: &op})
+			}
+			edits = edits[m:]
+		}
+		srcs := sources()
+		if cfg.Real || !rng.Chance(1, 4) {
+			g.acts = append(g.acts, Action{Op: "call", Sources: srcs})
+			continue
+		}
+		a := Action{Op: "overlap", Legs: []Leg{{Sources: srcs, Park: 1 + rng.Intn(1000)}}}
+		for m := 1 + rng.Intn(5)/4; m > 0; m-- {
+			l := Leg{Sources: sources()}
+			if rng.Chance(1, 2) {
+				l.Park = 1 + rng.Intn(1000)
+			}
+			a.Legs = append(a.Legs, l)
+		}
+		for j := range a.Legs {
+			a.Release = append(a.Release, j)
+		}
+		rng.Shuffle(len(a.Release), func(i, j int) { a.Release[i], a.Release[j] = a.Release[j], a.Release[i] })
+		g.acts = append(g.acts, a)
 	}
 	return cfg, g.acts
 }
